@@ -135,6 +135,13 @@ func funcFactsD(fn *ssa.Function, depth int, onStack map[*ssa.Function]bool) map
 					case token.SHL, token.SHR, token.AND, token.OR, token.XOR, token.AND_NOT:
 						facts["arith:bits"]++
 					case token.EQL, token.NEQ, token.LSS, token.LEQ, token.GTR, token.GEQ:
+						// comparisons with nil (error plumbing) come and go with helper extraction: not arithmetic
+						if cx, ok := x.X.(*ssa.Const); ok && cx.IsNil() {
+							break
+						}
+						if cy, ok := x.Y.(*ssa.Const); ok && cy.IsNil() {
+							break
+						}
 						facts["arith:compare"]++
 					}
 				}
